@@ -216,6 +216,36 @@ class ProgramIndex:
                 if isinstance(st.value, ast.Name):
                     ci.aliases[st.targets[0].attr] = st.value.id
                 ci.class_attrs[st.targets[0].attr] = st.value
+            else:
+                self._late_setattr(st, m)
+
+    @staticmethod
+    def _late_setattr(st, m: ModuleInfo) -> None:
+        """`setattr(C, "name", C.other)` at module level, alone or in `for n in ("a", "b", ...): setattr(C, n, C.other)` (the tuple may be a module
+        constant defined above): class attributes bound right after the class statement, read as the aliases they are."""
+        def bind(call, names):
+            if not (isinstance(call, ast.Call) and isinstance(call.func, ast.Name) and call.func.id == "setattr" and len(call.args) == 3 and not call.keywords):
+                return
+            c, _, v = call.args
+            if not (isinstance(c, ast.Name) and c.id in m.classes):
+                return
+            ci = m.classes[c.id]
+            target = v.id if isinstance(v, ast.Name) else (v.attr if isinstance(v, ast.Attribute) and isinstance(v.value, ast.Name) and v.value.id == c.id else None)
+            for n in names:
+                if target is not None:
+                    ci.aliases[n] = target
+                ci.class_attrs[n] = v
+
+        if isinstance(st, ast.Expr) and isinstance(st.value, ast.Call) and len(st.value.args) == 3 and isinstance(st.value.args[1], ast.Constant) and isinstance(st.value.args[1].value, str):
+            bind(st.value, [st.value.args[1].value])
+        elif isinstance(st, ast.For) and isinstance(st.target, ast.Name) and not st.orelse and len(st.body) == 1 and isinstance(st.body[0], ast.Expr):
+            it = st.iter
+            if isinstance(it, ast.Name) and it.id in m.globals_:
+                it = m.globals_[it.id]
+            call = st.body[0].value
+            if isinstance(it, (ast.Tuple, ast.List)) and all(isinstance(e, ast.Constant) and isinstance(e.value, str) for e in it.elts) and isinstance(call, ast.Call) \
+                    and len(call.args) == 3 and isinstance(call.args[1], ast.Name) and call.args[1].id == st.target.id:
+                bind(call, [e.value for e in it.elts])
 
     @staticmethod
     def _decorators(node: ast.FunctionDef) -> tuple[str, ...]:
@@ -237,6 +267,7 @@ class ProgramIndex:
             qn = f"{cls.qualname}.{node.name}"
         else:
             qn = f"{m.name}.{node.name}"
+        node = self._expand_wrapping_decorators(node, m)
         fi = FunctionInfo(qn, node.name, node, m, cls, parent, self._decorators(node))
         self.functions[qn] = fi
         self._fn_of_node[id(node)] = fi
@@ -248,6 +279,116 @@ class ProgramIndex:
         for sub in self._direct_nested_defs(node):
             self._add_function(sub, m, cls, fi)
         return fi
+
+    @staticmethod
+    def _expand_wrapping_decorators(node, m: ModuleInfo):
+        """`@factory(a, b)` where `factory` is a function of the same module of the shape
+
+            def factory(P...):            (or the decorator itself, without the factory layer: `@decorator`)
+                def decorator(f):
+                    @wraps(f)
+                    def wrapper(X...):  PRE;  return f(X...)
+                    return wrapper
+                return decorator
+
+        is the decorated function with PRE (no return / yield in it) executed first: the body becomes PRE + body, with the wrapper's parameters renamed to
+        the function's own, the factory's parameters replaced by the arguments of the decorator call, `for v in (<constants>)` unrolled and
+        `getattr(obj, "name")` read as `obj.name`.  Any other decorator is left alone."""
+        import copy
+
+        def body_of(fn):
+            b = list(fn.body)
+            if b and isinstance(b[0], ast.Expr) and isinstance(b[0].value, ast.Constant) and isinstance(b[0].value.value, str):
+                b = b[1:]
+            return b
+
+        def module_fn(name):
+            return next((st for st in m.tree.body if isinstance(st, ast.FunctionDef) and st.name == name), None)
+
+        def def_and_return(fn):
+            b = body_of(fn)
+            if len(b) == 2 and isinstance(b[0], ast.FunctionDef) and isinstance(b[1], ast.Return) and isinstance(b[1].value, ast.Name) and b[1].value.id == b[0].name:
+                return b[0]
+            return None
+
+        for d in list(node.decorator_list):
+            call = d if isinstance(d, ast.Call) else None
+            fname = d.func.id if call is not None and isinstance(d.func, ast.Name) else (d.id if isinstance(d, ast.Name) else None)
+            outer = module_fn(fname) if fname else None
+            if outer is None or outer is node:
+                continue
+            subst: dict = {}
+            if call is not None:
+                deco = def_and_return(outer)
+                if deco is None or call.keywords or outer.args.kwonlyargs or outer.args.kwarg or outer.args.defaults:
+                    continue
+                pos = [a.arg for a in outer.args.args]
+                if len(call.args) < len(pos) or (len(call.args) > len(pos) and outer.args.vararg is None) or any(isinstance(a, ast.Starred) for a in call.args):
+                    continue
+                for pn, a in zip(pos, call.args):
+                    subst[pn] = a
+                if outer.args.vararg is not None:
+                    subst[outer.args.vararg.arg] = ast.Tuple(elts=list(call.args[len(pos):]), ctx=ast.Load())
+            else:
+                deco = outer
+            if len(deco.args.args) != 1 or deco.args.vararg or deco.args.kwarg or deco.args.kwonlyargs:
+                continue
+            wrapper = def_and_return(deco)
+            if wrapper is None:
+                continue
+            fpar = deco.args.args[0].arg
+            wb = body_of(wrapper)
+            wpar = [a.arg for a in wrapper.args.args]
+            opar = [a.arg for a in node.args.args]
+            if not wb or wrapper.args.vararg or wrapper.args.kwarg or wrapper.args.kwonlyargs or node.args.vararg or node.args.kwarg or node.args.kwonlyargs or len(wpar) != len(opar):
+                continue
+            last = wb[-1]
+            if not (isinstance(last, ast.Return) and isinstance(last.value, ast.Call) and isinstance(last.value.func, ast.Name) and last.value.func.id == fpar and not last.value.keywords
+                    and [a.id if isinstance(a, ast.Name) else None for a in last.value.args] == wpar):
+                continue
+            pre = wb[:-1]
+            if any(isinstance(x, (ast.Return, ast.Yield, ast.YieldFrom, ast.Await, ast.FunctionDef, ast.Lambda, ast.Global, ast.Nonlocal)) for st in pre for x in ast.walk(st)) \
+                    or any(isinstance(x, ast.Name) and x.id == fpar for st in pre for x in ast.walk(st)):
+                continue
+            stored = {x.id for st in pre for x in ast.walk(st) if isinstance(x, ast.Name) and isinstance(x.ctx, ast.Store)}
+            if stored & (set(subst) | set(wpar) | set(opar)):
+                continue
+            for a, b in zip(wpar, opar):
+                subst[a] = ast.Name(id=b, ctx=ast.Load())
+
+            class Sub(ast.NodeTransformer):
+                def __init__(self, mp):
+                    self.mp = mp
+
+                def visit_Name(self, n):
+                    if isinstance(n.ctx, ast.Load) and n.id in self.mp:
+                        return ast.copy_location(copy.deepcopy(self.mp[n.id]), n)
+                    return n
+
+                def visit_Call(self, n):
+                    self.generic_visit(n)
+                    if isinstance(n.func, ast.Name) and n.func.id == "getattr" and len(n.args) == 2 and not n.keywords and isinstance(n.args[1], ast.Constant) and isinstance(n.args[1].value, str):
+                        return ast.copy_location(ast.Attribute(value=n.args[0], attr=n.args[1].value, ctx=ast.Load()), n)
+                    return n
+
+            def expand(stmts, mp):
+                out = []
+                for st in stmts:
+                    if isinstance(st, ast.For) and isinstance(st.target, ast.Name) and not st.orelse and isinstance(st.iter, ast.Name) and st.iter.id in mp \
+                            and isinstance(mp[st.iter.id], ast.Tuple) and all(isinstance(e, ast.Constant) for e in mp[st.iter.id].elts) \
+                            and not any(isinstance(x, (ast.Break, ast.Continue)) for b in st.body for x in ast.walk(b)):
+                        for e in mp[st.iter.id].elts:
+                            out += expand(st.body, {**mp, st.target.id: e})
+                    else:
+                        out.append(ast.fix_missing_locations(Sub(mp).visit(copy.deepcopy(st))))
+                return out
+
+            new = copy.copy(node)
+            new.decorator_list = [x for x in node.decorator_list if x is not d]
+            doc = [node.body[0]] if node.body and isinstance(node.body[0], ast.Expr) and isinstance(node.body[0].value, ast.Constant) and isinstance(node.body[0].value.value, str) else []
+            new.body = doc + expand(pre, subst) + list(node.body[len(doc):])
+            node = new
+        return node
 
     @staticmethod
     def _direct_nested_defs(fn_node) -> list[ast.FunctionDef]:
